@@ -447,6 +447,8 @@ def sweep_C12(ctx):
 
     disk_last = struct.unpack("I", a[:4])[0]
     ctx.check("C12.header_persisted", disk_last == m.last, lambda: "header holds last id %r, %r were issued" % (disk_last, m.last))
+    top = max([w for _, w in got], default=0)
+    ctx.check("C12.ids_below_header", top <= disk_last, lambda: "the store holds webentity id %r but its header says the last id issued is %r: the next creation will re-issue an id" % (top, disk_last))
     if len(ids) >= 2:
         ctx.res.nontrivial = True
     ctx.note("C12", ids)
